@@ -19,8 +19,8 @@ func init() {
 	core.Register(&core.Check{
 		ID:    "C05",
 		Level: "exploration",
-		Rule: "E-proc: histories that leave events and/or an error pending (burst larger than the buffer, rename-then-delete / rename-then-rmdir of watched files and directories with the reader held back, delete of a watched directory with contents, many watches, a real queue overflow) " +
-			"x consumer behaviour {both channels, only Events, only Errors, neither, stops after k} x buffer {default,0,1,64,4096}; then a battery of control calls (Add of a new path, WatchList, Remove, 1-8 concurrent Close, Close twice) each under a watchdog, with PRNG delays injected at the verif yield points. " +
+		Rule: "E-proc: histories that leave events and/or an error pending (burst larger than the buffer, rename-then-delete / rename-then-rmdir of watched files and directories with the reader held back, delete of a watched directory with contents, many watches, moves in from / out to / within with unmatched halves, a real queue overflow with the consumer gated until the burst is complete and the control calls started only once the reader has reached the overflow record) " +
+			"x consumer behaviour {both channels, only Events, only Errors, neither, stops after k} x buffer {default,0,1,64,4096}; then a battery of control calls (Add of a new path, WatchList, Remove, 1-8 concurrent Close with Add/Remove/WatchList racing them, Close twice) each under a watchdog, with PRNG delays injected at the verif yield points. " +
 			"Structural oracle: the lock probe at every send must find the Watcher's lock free (or held by a tracked API call); behavioural oracle: a control call that has not returned at the watchdog is a violation only when the goroutine dump shows the deadlock signature (a send parked below handleEvent/AddWith with the lock held and the call parked in Mutex.Lock). " +
 			"distinct_nontrivial = distinct (history shape, consumer, buffer) cases in which >=1 send was probed",
 		Assumptions: []string{"'bounded time' is restated as: returned before the watchdog, or the dump decides; a bare watchdog expiry is inconclusive", "the reader goroutine and the tracked API calls are the only users of the lock"},
